@@ -145,4 +145,10 @@ theorem hit_age (g : Glue) (t0 : Int) (e : Entry) (reqCC : Directives) (hT : Tim
 theorem make504_fields : Header.values make504.header sStatusHeader = [CacheStatus.bypass.value] ∧
     Header.values make504.header sFromCache = [] := by decide
 
+/-- The Age field as the cache reads it (regression examples, tests): of a list-based value — two caches' Age
+    fields merged by a gateway — the FIRST member counts (RFC 9111 §5.1), also behind an empty field line or an
+    empty member; the pinned tree read "100, 5" as no Age at all and served the response as 100 s younger than it is. -/
+example : firstListMember [str% "100, 5"] = (str% "100") ∧ firstListMember [[], str% " 50 , 1"] = (str% "50") ∧
+    firstListMember [str% ", 7"] = (str% "7") ∧ firstListMember [str% "junk, 5"] = (str% "junk") ∧ firstListMember [] = [] := by decide
+
 end Httpcache.C11
